@@ -234,15 +234,49 @@ def run_driver(cases_file, workdir):
         orc.close()
     return [l.rstrip('\n') for l in open(m)], [l.rstrip('\n') for l in open(s)], nq
 
+def _limit_memory():
+    import resource
+    lim = 24 << 30
+    try:
+        resource.setrlimit(resource.RLIMIT_AS, (lim, lim))
+    except Exception:
+        pass
+
 def run_harness(domain, cases_file, timeout=3000):
-    rc, out = sh(['timeout', str(timeout), os.path.join(BUILD, 'harness'), 'run', domain, cases_file], env=GOENV)
-    lines = out.split('\n')
-    if lines and lines[-1] == '':
-        lines.pop()
+    """Run the implementation on every case.  If the harness process dies (a fatal runtime error
+    such as out-of-memory cannot be recovered inside Go), the case it died on is reported as a
+    crash and the run continues with the remaining cases (at most three times)."""
+    cases = [l for l in open(cases_file).read().split('\n') if l.strip()]
     res = []
-    for l in lines:
-        obs, _, verdict = l.partition('\t')
-        res.append((obs, verdict or '-'))
+    start = 0
+    crashes = 0
+    rc = 0
+    while start < len(cases):
+        part = cases_file + '.part'
+        open(part, 'w').write('\n'.join(cases[start:]) + '\n')
+        p = subprocess.run(['timeout', str(timeout), os.path.join(BUILD, 'harness'), 'run', domain, part], env=GOENV,
+                           stdout=subprocess.PIPE, stderr=subprocess.PIPE, text=True, preexec_fn=_limit_memory)
+        rc = p.returncode
+        lines = p.stdout.split('\n')
+        if lines and lines[-1] == '':
+            lines.pop()
+        # a line is complete only if it has the tab separated verdict
+        good = [l for l in lines if '\t' in l]
+        for l in good:
+            obs, _, verdict = l.partition('\t')
+            res.append((obs, verdict or '-'))
+        start += len(good)
+        if start >= len(cases):
+            break
+        # the process died while running cases[start]
+        crashes += 1
+        why = (p.stderr or '').strip().split('\n')
+        why = next((w for w in why if 'fatal error' in w or 'panic' in w or 'runtime:' in w), why[0] if why else 'no output')
+        res.append(('CRASH', 'FAIL:crash:the process died running this case (%s)' % why[:200]))
+        start += 1
+        if crashes >= 3:
+            res.extend([('SKIPPED', '-')] * (len(cases) - start))
+            break
     return rc, res
 
 def gen_cases(domain, seed, n, tier):
@@ -379,7 +413,7 @@ def _run_check(prop, tier, seed, replay, info, work, t0):
             if len(samples) < 3 and len(c) < 600:
                 samples.append({'case': c, 'impl': iobs[:300], 'model_agrees': mobs == iobs or mobs == '-'})
             viol, mism = res[i]
-            if viol and 'kinds' in prop and viol[0] not in prop['kinds']:
+            if viol and 'kinds' in prop and viol[0] not in prop['kinds'] and viol[0] != 'crash':
                 viol = None      # a statement of another property evaluated by the same domain
             if viol:
                 if viol[0] in known_kinds:
